@@ -123,6 +123,22 @@ class PandasMaterializer(FormulaMaterializer):
     ) -> dict[str, Any]:
         out = {}
 
+        if len(factors) > 1 or scale != 1:
+            # Integer arithmetic silently wraps around, so products of integer
+            # columns are computed in floating point.
+            factors = [
+                {
+                    name: (
+                        values.astype(float)
+                        if getattr(getattr(values, "dtype", None), "kind", None)
+                        in ("i", "u")
+                        else values
+                    )
+                    for name, values in factor.items()
+                }
+                for factor in factors
+            ]
+
         names = [
             ":".join(reversed(product))
             for product in itertools.product(*reversed(factors))
